@@ -148,7 +148,12 @@ func TestGovcBoundedC05Determinism(t *testing.T) {
 	chainVendor := `module vendor { namespace "urn:vendor"; prefix v; import cb { prefix b; } import plat { prefix p; }
   augment "/b:top/p:slot" { leaf locator-led { type boolean; } }
   augment "/b:top/p:slot/p:card/p:port" { leaf lanes { type uint8; } } }`
-	sets := [][]string{{base, x}, {base, x, dev}, {base, x, bad1}, {base, x, bad2}, {base, x, bad1, bad2},
+	// two modules that bring a node of the same name to one target: which one is applied and
+	// which is refused, and what the error says, is the same in every run and load order
+	clashT := `module ct { namespace "urn:ct"; prefix ct; container c { leaf own { type string; } } }`
+	clashA := `module ca { namespace "urn:ca"; prefix ca; import ct { prefix ct; } augment "/ct:c" { leaf x { type string; } leaf from-a { type string; } } }`
+	clashB := `module cb2 { namespace "urn:cb2"; prefix cb2; import ct { prefix ct; } augment "/ct:c" { leaf x { type uint8; } leaf from-b { type string; } } }`
+	sets := [][]string{{clashT, clashA, clashB}, {base, x}, {base, x, dev}, {base, x, bad1}, {base, x, bad2}, {base, x, bad1, bad2},
 		{ring1, ring2}, {tgt, rev20, rev21}, {tgt, rev20, rev21, rev22}, {shared, user1, user2}, {chainBase, chainPlat, chainVendor}}
 	evals, distinct := 0, 0
 	for si, srcs := range sets {
